@@ -3,12 +3,18 @@
 package checks
 
 import (
+	"bytes"
 	"fmt"
+	"io"
+	"os"
 	"strings"
 	"time"
 
+	"github.com/gorilla/websocket"
 	"verif.local/engine/explore"
+	"verif.local/engine/vrt"
 	"verif.local/ref/netsim"
+	"verif.local/ref/wsref"
 )
 
 func init() {
@@ -16,10 +22,13 @@ func init() {
 		ID:          "C20",
 		Technique:   "exhaustive exploration of write programs x transport fault positions x invalid requests on a real Conn with an instrumented, poisoning BufferPool; Get/Put log judged against the message life cycle",
 		Rule:        "same program/fault space as C10 with the pool forced on; the pool logs every Get/Put stamped with the API call and transport op in progress, hands the most recently returned buffer to the next taker and fills returned buffers with 0xDD. non-trivial = at least one Get and a non-default choice; distinct by observation hash",
-		Assumptions: []string{"sequential part: one connection per pool (sharing under all interleavings is explored by the scheduler scenarios when built)"},
+		Assumptions: []string{"sharing: 2-3 connections with one pool under the controlled scheduler (plain and -race builds), Get/Put are scheduling points, preemption-bounded", "races = those ThreadSanitizer reports on explored schedules"},
+		Flavour:     "mixed",
 		Budget:      map[string]time.Duration{"quick": 100 * time.Second, "thorough": 25 * time.Minute},
 		Bound:       map[string]string{"quick": "deviations <= 2 (a fault is one deviation), <= 2 messages", "thorough": "deviations <= 3, <= 3 messages"},
-		Scenarios:   func(tier string) []*explore.Scenario { return wScenarios("c20", tier, c20Body) },
+		Scenarios: func(tier string) []*explore.Scenario {
+			return append(wScenarios("c20", tier, c20Body), c20ShareScenarios(tier)...)
+		},
 	})
 }
 
@@ -117,4 +126,128 @@ func c20Oracle(x *explore.Ctx, e *WEnv, fs *faultState, key func(string) string)
 		}
 	}
 	_ = fmt.Sprint
+}
+
+// ---------------------------------------------------------------------------------------
+// sharing one pool among connections, all interleavings
+
+func c20ShareScenarios(tier string) []*explore.Scenario {
+	var scs []*explore.Scenario
+	for _, flavour := range []string{"sched", "race"} {
+		if flavour == "race" && os.Getenv("VERIF_NO_RACE") != "" {
+			continue
+		}
+		for _, nconn := range []int{2, 3} {
+			for _, deflate := range []bool{false, true} {
+				flavour, nconn, deflate := flavour, nconn, deflate
+				b := 2
+				if tier == "thorough" {
+					b = 3
+				}
+				if flavour == "race" {
+					b--
+				}
+				scs = append(scs, &explore.Scenario{Name: fmt.Sprintf("c20/%s/share/conns=%d/deflate=%v", flavour, nconn, deflate), Bound: b, Flavour: flavour,
+					Body: func(x *explore.Ctx) { c20Share(x, nconn, deflate) }})
+			}
+		}
+	}
+	return scs
+}
+
+type sharePool struct {
+	LogPool
+	s *vrt.Sched
+}
+
+//go:norace
+func (p *sharePool) Get() interface{} {
+	p.s.Point("pool.Get", nil)
+	p.Who = p.s.CurName()
+	v := p.LogPool.Get()
+	return v
+}
+
+//go:norace
+func (p *sharePool) Put(v interface{}) {
+	p.s.Point("pool.Put", nil)
+	p.Who = p.s.CurName()
+	p.LogPool.Put(v)
+}
+
+func c20Share(x *explore.Ctx, nconn int, deflate bool) {
+	s, l := newSchedOpt(x, nconn <= 2)
+	pool := &sharePool{s: s}
+	pool.ids = map[*byte]int{}
+	pool.Out = map[int]string{}
+	type cs struct {
+		nc   *netsim.Conn
+		c    *websocket.Conn
+		sent [][]byte
+		errs []error
+	}
+	conns := make([]*cs, nconn)
+	for i := range conns {
+		i := i
+		nc := netsim.NewConn(nil)
+		hookTransport(l, nc, fmt.Sprintf("c%d", i))
+		c := websocket.VerifNewConn(nc, i%2 == 0, 0, 125, pool, deflate)
+		me := &cs{nc: nc, c: c}
+		conns[i] = me
+		p1 := bytes.Repeat([]byte{byte('A' + i)}, 200)
+		p2 := bytes.Repeat([]byte{byte('a' + i)}, 30)
+		me.sent = [][]byte{p1, p2}
+		me.errs = make([]error, 2)
+		s.Go(fmt.Sprintf("T%d", i), func() {
+			me.errs[0] = l.call("NextWriter+Write(200)+Close", func() error {
+				w, err := c.NextWriter(websocket.BinaryMessage)
+				if err != nil {
+					return err
+				}
+				if _, err := w.Write(p1); err != nil {
+					return err
+				}
+				return w.Close()
+			})
+			me.errs[1] = l.call("WriteMessage(30)", func() error { return c.WriteMessage(websocket.BinaryMessage, p2) })
+		})
+	}
+	s.Run()
+	x.NonTrivial()
+	key := func(what string) string { return fmt.Sprintf("C20:share-%s:deflate=%v", what, deflate) }
+	x.Obs("events=%d switches=%d", len(pool.Events), s.Switches)
+	x.Check(s.Deadlock == "", key("deadlock"), "%s", s.Deadlock)
+	x.Check(pool.Problem == "", key("double-put"), "%s", pool.Problem)
+	for i, me := range conns {
+		for j, e := range me.errs {
+			x.Check(e == nil, key("write-failed"), "connection %d message %d: %v", i, j, e)
+		}
+		d, err := wsref.DecodeStrict(me.nc.Out, wsref.StrictOpts{Sender: RoleOf(i%2 == 0), Deflate: deflate})
+		x.Check(err == nil, key("corrupted-frames"), "connection %d: wire malformed (another connection's buffer?): %v", i, err)
+		data := d.Data()
+		x.Check(len(data) == 2, key("corrupted-frames"), "connection %d: %d messages on the wire", i, len(data))
+		for j := range data {
+			x.Check(bytes.Equal(data[j].Payload, me.sent[j]), key("corrupted-payload"), "connection %d message %d: wire payload %s, written %s - a pooled buffer was touched after release or while another connection held it", i, j, short(data[j].Payload), short(me.sent[j]))
+		}
+		// per connection: (Get Put)* and nothing held at the end
+		out, last := 0, 0
+		for _, ev := range pool.Events {
+			if ev.Conn != fmt.Sprintf("T%d", i) {
+				continue
+			}
+			if ev.Op == "get" {
+				x.Check(out == 0, key("double-get"), "connection %d took a second buffer while holding one", i)
+				out++
+				last = ev.Buf
+			} else {
+				x.Check(out == 1, key("put-without-get"), "connection %d returned a buffer it did not hold", i)
+				out--
+				if last != 0 {
+					x.Check(ev.Buf == last, key("put-other-buffer"), "connection %d returned buffer #%d, it had taken #%d", i, ev.Buf, last)
+				}
+			}
+		}
+		x.Check(out == 0, key("held-at-end"), "connection %d still holds a pool buffer after its messages ended", i)
+	}
+	_ = io.EOF
 }
